@@ -30,6 +30,13 @@ pub struct Spoof {
     /// packet numbers) followed by this many junk bytes in the same datagram (coalesced remainder)
     #[serde(default)]
     pub followups: Vec<u16>,
+    /// destination connection ID length chosen by the "client" (default: 8..=16 bytes)
+    #[serde(default)]
+    pub dcid_len: Option<u8>,
+    /// the last `first_tail` bytes of the first datagram are junk after the Initial packet (coalesced
+    /// remainder) instead of padding inside it
+    #[serde(default)]
+    pub first_tail: u16,
 }
 
 #[derive(Clone, Debug, Serialize, Deserialize)]
@@ -49,9 +56,11 @@ pub struct Amp {
 pub fn arb_amp() -> impl Strategy<Value = Amp> {
     let g = XferGen { max_faults: 40, aux_ops: 1, rustls_share: 10, max_streams: 2, max_total: 30_000, ..XferGen::default() };
     let spoof = (0u32..3_000_000, prop_oneof![1u16..1200, Just(1199u16), Just(1200u16), 1200u16..=1500], 3u8..40, any::<bool>(), 1u8..4)
-        .prop_map(|(at_us, size, host, hello, copies)| Spoof { at_us, size, host, hello, copies, followups: vec![] });
-    let spoof = (spoof, prop::collection::vec(prop_oneof![0u16..100, 900u16..1400], 0..4)).prop_map(|(mut s, f)| {
+        .prop_map(|(at_us, size, host, hello, copies)| Spoof { at_us, size, host, hello, copies, followups: vec![], dcid_len: None, first_tail: 0 });
+    let spoof = (spoof, prop::collection::vec(prop_oneof![0u16..100, 900u16..1400], 0..4), prop_oneof![3 => Just(None), 1 => (0u8..8).prop_map(Some), 1 => (8u8..=20).prop_map(Some)], prop_oneof![2 => Just(0u16), 1 => 1u16..1100]).prop_map(|(mut s, f, dl, ft)| {
         s.followups = f;
+        s.dcid_len = dl;
+        s.first_tail = ft;
         s
     });
     let garb = (0u32..3_000_000, prop_oneof![1u16..64, 20u16..23, 64u16..1500], 3u8..40).prop_map(|(at_us, size, host)| Garbage { at_us, size, host });
@@ -91,15 +100,27 @@ fn client_hello(scid: &[u8]) -> Vec<u8> {
     m
 }
 
-fn craft_initial(seed: u64, size: usize, hello: bool) -> Vec<u8> {
-    craft_initial_pn(seed, size, hello, 0)
+fn craft_initial(seed: u64, size: usize, hello: bool, dcid_len: Option<u8>, tail: usize) -> Vec<u8> {
+    // the Initial packet itself is padded to size - tail, then `tail` junk bytes follow
+    let tail = tail.min(size.saturating_sub(100));
+    let mut d = craft_initial_pn(seed, size - tail, hello, 0, dcid_len);
+    let mut r = crate::core::mix(seed, 0x7a12);
+    for _ in 0..tail {
+        r = crate::core::mix(r, 1);
+        d.push(r as u8);
+    }
+    d
 }
 
-fn craft_initial_pn(seed: u64, size: usize, hello: bool, pn: u64) -> Vec<u8> {
+fn craft_initial_pn(seed: u64, size: usize, hello: bool, pn: u64, dcid_len: Option<u8>) -> Vec<u8> {
     let a = crate::core::mix(seed, 0xd1);
     let b = crate::core::mix(seed, 0xd2);
     let mut dcid = a.to_le_bytes().to_vec();
     dcid.extend_from_slice(&b.to_le_bytes()[..(a % 9) as usize]);
+    if let Some(n) = dcid_len {
+        dcid.extend_from_slice(&crate::core::mix(seed, 0xd4).to_le_bytes());
+        dcid.truncate(n as usize);
+    }
     let scid = crate::core::mix(seed, 0xd3).to_le_bytes();
     let payload = if hello {
         wire::encode_frames(&[wire::Frame::Crypto { offset: 0, data: client_hello(&scid) }])
@@ -138,7 +159,7 @@ pub fn case(a: &Amp) -> CaseOut {
     let mut crafted: Vec<(u64, usize, bool)> = vec![]; // (dgram id, size, hello)
     if sim {
         for (i, s) in a.spoofs.iter().enumerate() {
-            let bytes = craft_initial(crate::core::mix(x.net.seed, i as u64), s.size as usize, s.hello);
+            let bytes = craft_initial(crate::core::mix(x.net.seed, i as u64), s.size as usize, s.hello, s.dcid_len, s.first_tail as usize);
             for c in 0..s.copies as u64 {
                 let id = w.inject(s.at_us as u64 + c * 700, server_addr, addr_v6(0x100 + s.host as u16, 7000 + i as u16), bytes.clone());
                 crafted.push((id, bytes.len(), s.hello));
@@ -146,7 +167,7 @@ pub fn case(a: &Amp) -> CaseOut {
             // follow-up datagrams to the connection the hello created: small Initial + junk remainder
             if s.hello && s.size >= 1200 {
                 for (j, tail) in s.followups.iter().enumerate() {
-                    let mut d = craft_initial_pn(crate::core::mix(x.net.seed, i as u64), 0, false, 1 + j as u64);
+                    let mut d = craft_initial_pn(crate::core::mix(x.net.seed, i as u64), 0, false, 1 + j as u64, s.dcid_len);
                     let mut r = crate::core::mix(x.net.seed, 0x7a11 + j as u64);
                     for _ in 0..*tail {
                         r = crate::core::mix(r, 1);
